@@ -868,6 +868,11 @@ def _cond_build(c: t.Tuple[t.Any, ...]) -> t.Any:
         return A.Condition(_always, name='anything')
     if k == 'even':
         return A.Condition(_even, name='even')
+    if k == 'partial_gt':
+        # a predicate without a __name__ (functools.partial, any callable object), and no name= given
+        import functools
+        import operator
+        return A.Condition(functools.partial(operator.lt, c[1]))
     if k == 'raises':
         return A.Condition(_raiser, name='raiser')
     if k == 'all':
@@ -947,11 +952,14 @@ def cond_eval(c: t.Tuple[t.Any, ...], x: t.Any) -> bool:
     if k == 'NonNegative':
         return bool(x >= 0)
     if k == 'Finite':
-        return math.isfinite(x)
+        # the arithmetic predicate: every int (and Fraction) is finite, also one too large for a float
+        return True if isinstance(x, (int, fractions.Fraction)) else math.isfinite(x)
     if k == 'Empty':
         return len(x) == 0
     if k == 'NonEmpty':
         return len(x) != 0
+    if k == 'partial_gt':
+        return bool(x > c[1])
     if k == 'val_range':
         ok = True
         if c[1] is not None:
@@ -1003,7 +1011,7 @@ def cond_render(c) -> str:
         return f"Condition.{k}({', '.join(cond_render(x) for x in c[1])})"
     if k in ('shape', 'bcast'):
         return f"{'shape' if k == 'shape' else 'broadcastable'}({list(c[1]) if k == 'shape' and c[2] == 'list' else tuple(c[1])})"
-    if k in ('user_gt', 'raises_if'):
+    if k in ('user_gt', 'raises_if', 'partial_gt'):
         return f"{k}({c[1]})"
     if k in ('and', 'or'):
         return f"({cond_render(c[1])} {'&' if k == 'and' else '|'} {cond_render(c[2])})"
